@@ -1,7 +1,7 @@
 /-
 C05, parser = specification: the simulation step for `designation` and `initializer2`, and the induction.
 -/
-import ChibiVerif.Lemmas.InitSimStruct
+import ChibiVerif.Lemmas.InitSimRange
 
 namespace ChibiVerif.InitSpec
 open ChibiVerif.Init
@@ -19,6 +19,7 @@ theorem sim_desg_bracket {f : Nat} (ih : Sim f) {root : Ty} {top : Bool} {obj : 
   obtain ⟨⟨b, e, tok⟩, had, h⟩ := bind_eq_ok h
   obtain ⟨⟨c1, tok2⟩, hfold, h⟩ := bind_eq_ok h
   simp only at hfold h
+  have harr2 : arrayInit2 f elem tok2 c1 (e + 1) = .ok (c', toks') := h
   have hs : shaped (.array elem len) (.arr cs) = true := hA.shapedc
   have hlen : cs.length = len := by
     obtain ⟨cs', h1, h2, _⟩ := arr_of_shaped hs
@@ -67,11 +68,19 @@ theorem sim_desg_bracket {f : Nat} (ih : Sim f) {root : Ty} {top : Bool} {obj : 
         have : a2.toNat + 1 - a2.toNat = 1 := by omega
         simp only [this, List.range'_one, List.map_cons, List.map_nil]
         exact single a2 h0 h2 hb he
-      · refine ⟨0, fun res hres hcl => ?_⟩
-        have hw : 1 < ((List.range' a.toNat (a2.toNat + 1 - a.toNat)).map (fun k => p ++ [k])).length := by
-          simp only [List.length_map, List.length_range']; omega
-        rw [afterDesg_wide_dirty hw hres] at hcl
-        cases hcl
+      · subst hb he
+        have hA1 := hA.set hs1
+        obtain ⟨_, himp2⟩ := ih.arr2 (top := top) hA1 (Nat.succ_pos a2.toNat) harr2
+        obtain ⟨g2, h2'⟩ := himp2 (hA.marked_set c1) g fl
+        refine ⟨g2, fun res hres hcl => ?_⟩
+        have hrw := range_whole ih hA a.toNat (a2.toNat + 1 - a.toNat) (by omega) (by omega) tok c1 tok2 hfold
+          g d fl res hres hcl
+        have hidx : a.toNat + (a2.toNat + 1 - a.toNat) = a2.toNat + 1 := by omega
+        rw [hidx] at hrw
+        have := h2' res hrw hcl
+        simp only [After] at this ⊢
+        rw [setAtM_over hA] at this
+        exact this
 
 
 theorem sim_desg {f : Nat} (ih : Sim f) : DesgSt (f+1) := by
@@ -244,113 +253,6 @@ theorem sim_desg {f : Nat} (ih : Sim f) : DesgSt (f+1) := by
       rw [desigPaths_plain _ _ _ _ _ hnd (fun r hr => hn4 r hr)]
       exact h'
 
-
-theorem growable_false' {root : Ty} {top : Bool} {p : List Nat} {t : Ty} (ho : tyOk root = true) (ht : subTy root p = some t)
-    (hok : subOk t = true) : growable root top p = false := by
-  cases root with
-  | scalar => simp [growable]
-  | array => simp [growable]
-  | inc e' =>
-    cases p with
-    | nil => simp [subTy] at ht; subst ht; simp [subOk] at hok
-    | cons k p => simp [growable]
-  | struct ms sz fl =>
-    simp only [tyOk, subOk, Bool.and_eq_true, Bool.not_eq_true'] at ho
-    rw [ho.1]; simp [growable]
-  | union ms sz fl =>
-    simp only [tyOk, subOk, Bool.and_eq_true, Bool.not_eq_true'] at ho
-    rw [ho.1.1]; simp [growable]
-
-/-- what a brace-enclosed list for a subobject of type `t` whose node is `c` must deliver: the parser's node `c'` and rest -/
-def BraceSim (t : Ty) (c : Init) (inner : List ITok) (c' : Init) (rest : List ITok) : Prop :=
-  ∀ top g fl res, initList g t top c (firstCursor t) inner true fl = .ok res → res.fl.clean = true →
-    defaultMember t (unflex res.obj) = c' ∧ res.rest = rest ∧ res.fl = fl
-
-/-- `{ … }` for the subobject at `p` (p19: the whole subobject; the parser re-uses the node, which is zero if untouched) -/
-theorem init2_brace {root : Ty} {top : Bool} {obj : Init} {p : List Nat} {t : Ty} {c : Init} {inner : List ITok} {c' : Init}
-    {rest : List ITok} (hA : At root obj p t c) (hb : hasExpr c = false → BraceSim t c inner c' rest) :
-    ∀ g fl, ∃ g', Imp (initItem g root top obj [p] (.lbrace :: inner) fl) (After root top obj p c' rest fl g') := by
-  intro g fl
-  refine ⟨g, fun res hres hcl => ?_⟩
-  rw [initItem_brace _ _ _ _ _ _ _ hA.sub (growable_false' hA.rootOk hA.sub hA.ok)] at hres
-  obtain ⟨sub, hsub, hres⟩ := bind_eq_ok hres
-  obtain ⟨obj', hmod, hfin⟩ := bind_eq_ok hres
-  have hfl := initList_clean _ _ _ _ _ _ _ _ _ hfin hcl
-  obtain ⟨hfl1, hsubcl⟩ := Flags.clean_join hfl
-  obtain ⟨_, hfl2⟩ := Flags.clean_join hfl1
-  obtain ⟨htch, hxa, _⟩ := Flags.clean_mk hfl2
-  obtain ⟨hne, hsw⟩ := touched_false p obj c hA.get htch
-  have hz := zero_of_shaped t c hA.ok hA.shapedc hne
-  have hzero : braceStart t = c := by rw [hz]; rfl
-  rw [hzero] at hsub
-  obtain ⟨h1, h2, h3⟩ := hb hne false g Flags.none sub hsub hsubcl
-  rw [h1, modifyAt_eq root top _ p root [] obj t c hA.rootOk hA.shp hA.sub hA.get hsw] at hmod
-  simp only [pure_bind'] at hmod
-  cases hmod
-  rw [h2, h3, htch, hxa, Flags.join_false, Flags.join_none] at hfin
-  exact hfin
-
-/-- an initializer without braces that initialises the subobject at `p` as a whole (p11, p13, p14) -/
-theorem init2_stop {root : Ty} {top : Bool} {obj : Init} {p : List Nat} {t : Ty} {c : Init} {tok : ITok} {r : List ITok} {c' : Init}
-    (hA : At root obj p t c) (hb : tok ≠ .lbrace) (hs : stopsAt t tok = true)
-    (hst : (isStrTok tok = true → (∀ sz k, t ≠ .scalar sz k) → hasExpr c = false) → storeTok root top tok p t c = .ok c') :
-    ∀ g fl, ∃ g', Imp (initItem g root top obj [p] (tok :: r) fl) (After root top obj p c' r fl g') := by
-  intro g fl
-  refine ⟨g, fun res hres hcl => ?_⟩
-  rw [initItem_stop hb hA.sub hs] at hres
-  obtain ⟨obj', hmod, hfin⟩ := bind_eq_ok hres
-  have hfl := initList_clean _ _ _ _ _ _ _ _ _ hfin hcl
-  obtain ⟨_, hfl2⟩ := Flags.clean_join hfl
-  obtain ⟨hov, hxa, _⟩ := Flags.clean_mk hfl2
-  simp only [tokFlags, Bool.or_eq_false_iff] at hov hfl2
-  obtain ⟨hstr, hsw⟩ := hov
-  have hstore := hst (fun his hns => by
-    have : touched obj p = false := by
-      rw [his, hA.sub] at hstr
-      cases t with
-      | scalar sz k => exact absurd rfl (hns sz k)
-      | array => simpa using hstr
-      | inc => simpa using hstr
-      | struct => simpa using hstr
-      | union => simpa using hstr
-    exact (touched_false p obj c hA.get this).1)
-  rw [modifyAt_eq root top _ p root [] obj t c hA.rootOk hA.shp hA.sub hA.get hsw, hstore] at hmod
-  simp only [ok_bind] at hmod
-  cases hmod
-  have : tokFlags root obj tok p = ⟨false, false, false⟩ := by
-    simp only [tokFlags, hstr, hsw, hxa, Bool.or_self]
-  rw [this, Flags.join_false] at hfin
-  exact hfin
-
-
-theorem unflex_arr (cs : List Init) : unflex (.arr cs) = .arr cs := rfl
-theorem unflex_struct (e : Option Expr) (cs : List Init) : unflex (.struct e cs) = .struct e cs := rfl
-theorem unflex_union (e : Option Expr) (m : Option Nat) (cs : List Init) : unflex (.union e m cs) = .union e m cs := rfl
-theorem unflex_leaf (e : Option Expr) : unflex (.leaf e) = .leaf e := rfl
-
-theorem unflex_shaped {t : Ty} {c : Init} (h : shaped t c = true) : unflex c = c := by
-  cases c <;> first | rfl | (cases t <;> simp [shaped] at h)
-
-theorem defaultMember_non_union {t : Ty} (c : Init) (h : ∀ ms sz fl0, t ≠ .union ms sz fl0) : defaultMember t c = c := by
-  cases t with
-  | union ms sz fl0 => exact absurd rfl (h ms sz fl0)
-  | scalar => rfl
-  | array => rfl
-  | inc => rfl
-  | struct => rfl
-
-theorem desigPaths_scalar (sz : Nat) (k : SKind) (top : Bool) (d : Nat) (toks : List ITok) (h : isDesg toks = true) :
-    ∃ e, desigPaths (.scalar sz k) top d [[]] toks = .error e := by
-  cases d with
-  | zero => exact ⟨_, rfl⟩
-  | succ d =>
-    cases toks with
-    | nil => simp [isDesg] at h
-    | cons t r =>
-      cases t <;> simp [isDesg] at h
-      · rw [desigPaths]; simp [headTy, subTy, findMember, Ty.isAgg]
-      · rw [desigPaths]; simp [headTy, subTy]
-      · rw [desigPaths]; simp [headTy, subTy]
 
 theorem sim_init2 {f : Nat} (ih : Sim f) : Init2St (f+1) := by
   intro root top obj p ty c toks c' toks' hA h
@@ -558,5 +460,35 @@ theorem sim_init2 {f : Nat} (ih : Sim f) : Init2St (f+1) := by
       refine ⟨by simp [Init.setExpr, shaped], init2_stop hA hbr (by simp [stopsAt]) (fun _ => ?_)⟩
       simp [storeTok, hte, Init.setExpr]
       rfl
+
+
+theorem sim_succ (f : Nat) (ih : Sim f) : Sim (f+1) where
+  init2 := sim_init2 ih
+  desg := sim_desg ih
+  arr2loop := sim_arr2loop ih
+  arr2loop0 := sim_arr2loop0 ih
+  arr2 := sim_arr2 ih
+  arr20 := sim_arr20 ih
+  struct2 := sim_struct2 ih
+  struct20 := sim_struct20 ih
+  union0 := sim_union0 ih
+  arr1loop := sim_arr1loop ih
+  arr1 := sim_arr1 ih
+  struct1loop := sim_struct1loop ih
+  struct1 := sim_struct1 ih
+  union1 := sim_union1 ih
+
+/-- the simulation holds for every function of the parser and every fuel -/
+theorem sim_all : ∀ f, Sim f
+  | 0 => sim_zero
+  | f+1 => sim_succ f (sim_all f)
+
+/-- a brace-enclosed initializer for an object of type `t`: `initializer2` with the node `c` against the list of the specification -/
+theorem braceSim_init2 {f : Nat} {t : Ty} {c : Init} {inner : List ITok} {c' : Init} {rest : List ITok} (ho : subOk t = true)
+    (hs : shaped t c = true) (h : initializer2 f t (.lbrace :: inner) c = .ok (c', rest)) :
+    shaped t c' = true ∧ (hasExpr c = false → BraceSim t c inner c' rest) := by
+  cases f with
+  | zero => cases h
+  | succ f => exact braceSim_step (sim_all f) ho hs h
 
 end ChibiVerif.InitSpec
